@@ -264,6 +264,15 @@ def c05(ctx):
             h2 += h4
         ctx.evaluations += ev + ev2
         ctx.nontrivial += hist + h2
+    # boards between a move and its undo inside generation, annotation and search (hook H5): their key too
+    tk = ctx.path("transient_keys.ndjson")
+    tseeds = write_ndjson(ctx.path("tkseeds.ndjson"), seed_records(load_seeds()))
+    tsumm = harness(["record-transient", tk, "--seed", ctx.seed, "--games", 6 if quick else 40, "--plies", 60, "--one-in", 60 if quick else 40,
+                     "--cap", 8000 if quick else 60000, "--seeds", tseeds, "--keys"])
+    tb, tsk, ttot = engines.validate_records(ctx, tk, shards=4, workers=4, label="transient keys")
+    engines.absorb_records(ctx, tb, tsk, ttot)
+    ctx.extra["transient_board_keys_validated"] = ttot
+    ctx.evaluations += ttot
     ctx.extra["table_draws_examined"] = draws
     ctx.rule = ("design: KeyInvariant on every state of MC_Engine, accumulate-mode negative control must fail; constants: 752 piece + 16 ep non-zero and pairwise distinct, 16 rights sets pairwise distinct; "
                 "B2: at EVERY event of every history TLC recomputes the 64-bit key of the logged position from the black-box-read constants (16-bit limbs) and compares it with the logged key: "
